@@ -610,7 +610,7 @@ def c10(tier, hook=None):
 # C11
 # ------------------------------------------------------------------------------------------------
 def default_descs(tier, rnd):
-    kinds = ["none", "str", "empty_str", "path", "assoc_path", "into_path", "call", "block", "method", "int", "neg", "bytes"]
+    kinds = ["none", "str", "empty_str", "path", "assoc_path", "into_path", "qself_path", "turbofish_path", "call", "block", "method", "int", "neg", "bytes"]
     out = []
 
     def flds(n, choice=None):
